@@ -39,7 +39,7 @@ func (x *Exec) initGlobals() {
 					}
 					st.mem[o] = os
 				} else {
-					st.mem[o] = &ObjState{Val: x.zeroValue(elem)}
+					st.mem[o] = &ObjState{Val: x.memInit(st, o, x.zeroValue(elem))}
 				}
 				x.globals[g] = o
 			}
